@@ -1284,6 +1284,14 @@ func compileExpr(context *funcContext, reg int, expr ast.Expr, ec *expcontext) i
 			raiseCompileError(context, sline(ex), "cannot use '...' outside a vararg function")
 		}
 		context.Proto.IsVarArg &= ^VarArgNeedsArg
+		if sreg < reg && ec.varargopt == 0 {
+			// x = (...) with x a local below other live locals: VARARG leaves the top of the registry
+			// behind its last value and clears everything above it, so it is aimed at the free
+			// register and the value is moved into x
+			code.AddABC(OP_VARARG, reg, 2, 0, sline(ex))
+			code.AddABC(OP_MOVE, sreg, reg, 0, sline(ex))
+			return 0
+		}
 		checkResultRegisters(context, sreg, ec.varargopt+1, sline(ex))
 		code.AddABC(OP_VARARG, sreg, 2+ec.varargopt, 0, sline(ex))
 		if context.RegTop() > (sreg+2+ec.varargopt) || ec.varargopt < -1 {
